@@ -23,7 +23,9 @@ def run(chk):
         'list; every file node\'s function must be present; manager canonical; '
         'relative variable order kept. distinct_nontrivial = distinct (file '
         'node list, roots, header mode)')
-    chk.mc('MC_CopyLoad', 'MC_CopyLoad.cfg' if q else 'MC_CopyLoad_deep.cfg', timeout=3000)
+    chk.mc('MC_CopyLoad', 'MC_CopyLoad.cfg' if q else 'MC_CopyLoad_deep.cfg', timeout=5000)
+    if not q:
+        chk.mc('MC_CopyLoad', 'MC_CopyLoad_q5.cfg', timeout=5000)     # build-only operands, one level deeper
     r = tlcrun.model_check('MC_CopyLoad', 'MC_CopyLoad_neg_dddmp.cfg', 'neg', timeout=600)
     if 'is violated' not in r['out']:
         raise tlcrun.MachineryError('negative configuration MC_CopyLoad_neg_dddmp was not refuted')
